@@ -114,8 +114,13 @@ func checkC01(e *Env) {
 	histCalls := e.runHistories(drv, "C01", e.pick(24, 300), 4, func(ops []plan.Op, res []plan.Res) {
 		for i := range res {
 			op := &ops[i]
-			if op.Fn != "enc" || op.L < 0 || op.L >= ref.NLang || !validEntLen(len(op.Entropy())) || res[i].Panic != "" {
+			if op.Fn != "enc" || op.L < 0 || op.L >= ref.NLang || !validEntLen(len(op.Entropy())) {
 				continue
+			}
+			if res[i].Panic != "" {
+				e.Violate(&Violation{What: fmt.Sprintf("after earlier calls in the same process NewMnemonicByEntropy(%x, %s) did not return normally: %s", op.Entropy(), ref.Names[op.L], oneLine(res[i].Panic, 300)),
+					Ops: ops[:i+1], Expected: map[string]string{"out_hex": hxs(e.Model.Enc(op.Entropy(), int(op.L)))}, Observed: res[i], Detail: historyNote})
+				return
 			}
 			if want := e.Model.Enc(op.Entropy(), int(op.L)); string(unhex(res[i].Out)) != want || res[i].Err != nil {
 				e.Violate(&Violation{What: fmt.Sprintf("after earlier calls in the same process NewMnemonicByEntropy(%x, %s) is not the BIP39 sentence: %s", op.Entropy(), ref.Names[op.L], describeMismatch(string(unhex(res[i].Out)), want, int(op.L))),
